@@ -10,7 +10,7 @@ VARIABLES phase, lst
 
 Prefix == S("example.com/m@v1.0.0/")
 PathsCore == <<S("a"), S("A"), S("b.go"), S("go.mod"), S("GO.MOD"), S("sub/go.mod"), S("sub/a.go"), S("vendor/p/x.go"), S("vendor/modules.txt"),
-               S("pkg/vendor/vendor.go"), S("pkg/vendor/p/x.go"), S("dir/f"), S("dirx/f"), S("DIR/g"), S("testdata/example.com/m@v1.0.0/m.go"), S("logo.mod"), S("x/a.go.mod"), S("dir/LICENSE"), S("b.go/c"), S("LICENSE"), S("a//b"), S("/abs"), S("con"), <<233>>, <<201>>>>
+               S("pkg/vendor/vendor.go"), S("pkg/vendor/p/x.go"), S("dir/f"), S("dirx/f"), S("DIR/g"), S("testdata/example.com/m@v1.0.0/m.go"), S("logo.mod"), S("x/a.go.mod"), S("dir/LICENSE"), S(".git"), S("testdata/.hg/hgrc"), S("b.go/c"), S("LICENSE"), S("a//b"), S("/abs"), S("con"), <<233>>, <<201>>>>
 PathsMore == <<S("Go.Mod"), S("sub/GO.MOD"), S("Sub/x"), S("vendor/x.go"), <<8490>>, S("k"), <<383>>, S("s"), S("aux.txt"), S("a~1"), S("a b"), S("."), S(".."), S("../a"),
                S("a."), S(".hg_archival.txt"), S("a/b"), S("a/"), S("a/./b"), S("a/../b"), S("x*y"), S("sub/sub2/b.go"), S("vendor/modules.txt/x"), <<181>>, <<924>>, <<956>>, <<946>>, <<914>>,
                \* a nested module inside a vendor directory below the root, a reserved name with two extensions,
@@ -24,6 +24,7 @@ Variants(p) ==
                                                                                       File(p, "irregular", "small", FALSE, "none"), File(p, "regular", "small", TRUE, "none")} ELSE {})
     \cup (IF p \in {S("go.mod"), S("LICENSE"), S("a"), S("dir/LICENSE")} THEN {File(p, "regular", "big", FALSE, "none")} ELSE {})
     \cup (IF p = S("go.mod") THEN {File(p, "regular", "small", FALSE, g) : g \in {"old", "new", "bad"}} ELSE {})
+    \cup (IF p \in {S("a"), S("dir/f")} THEN {File(p, "regular", "empty", FALSE, "none")} ELSE {})
 AllFiles == UNION {Variants(Paths[i]) : i \in 1..Len(Paths)}
 \* archive entries
 Rel == <<S("a.go"), S("A.GO"), S("d/b.go"), S("D/c.go"), S("a.go/x"), S("go.mod"), S("Go.Mod"), S("sub/go.mod"), S("LICENSE"), S("../evil"), S("d/../../evil"),
@@ -32,7 +33,7 @@ PrefixVariants == <<Prefix, S("example.com/M@v1.0.0/"), <<>>, S("example.com/m@v
 Entry(n, sz) == [name |-> n, size |-> sz]
 EntryVariants == {Entry(Prefix \o Rel[i], "ok") : i \in 1..Len(Rel)}
                  \cup {Entry(PrefixVariants[j] \o S("a.go"), "ok") : j \in 2..Len(PrefixVariants)}
-                 \cup {Entry(Prefix \o S("a.go"), s) : s \in {"lie-more", "lie-less", "lie-zero"}}
+                 \cup {Entry(Prefix \o S("a.go"), s) : s \in {"lie-more", "lie-less", "lie-zero", "dirmode"}}
                  \cup {Entry(Prefix \o n, "big") : n \in {S("go.mod"), S("LICENSE"), S("a.go")}}
                  \cup {Entry(Prefix \o S("a.go"), "over"), Entry(Prefix \o S("a.go"), "huge"), Entry(Prefix \o S("go.mod"), "huge"), Entry(Prefix \o S("d/"), "huge")}
 
